@@ -605,8 +605,30 @@ func spinsAfter(fn *ssa.Function, lt limitTest) string {
 		return oka && okb && ka == kb
 	}
 	// decide an If under facts: returns +1 (true), -1 (false), 0 unknown
-	decide := func(iff *ssa.If) int {
-		t := CondFact(iff.Cond, true).Canon()
+	// values of phis fixed by the way the walk entered their block (x := a && b; y := c && d; if x || y)
+	resolved := map[*ssa.Phi]ssa.Value{}
+	var decideVal func(cond ssa.Value, depth int) int
+	decide := func(iff *ssa.If) int { return decideVal(iff.Cond, 0) }
+	decideVal = func(cond ssa.Value, depth int) int {
+		if subj, pol := BoolSubject(cond); depth < 4 {
+			if cv, isC := ConstCond(subj); isC {
+				if cv == pol {
+					return 1
+				}
+				return -1
+			}
+			if phi, isPhi := subj.(*ssa.Phi); isPhi {
+				if v, ok := resolved[phi]; ok {
+					r := decideVal(v, depth+1)
+					if !pol {
+						r = -r
+					}
+					return r
+				}
+				return 0
+			}
+		}
+		t := CondFact(cond, true).Canon()
 		if t.Y == nil {
 			return 0
 		}
@@ -674,12 +696,40 @@ func spinsAfter(fn *ssa.Function, lt limitTest) string {
 				cyc = fmt.Sprintf("block %d → block %d", b.Index, s.Index)
 				return
 			}
-			if !done[s] {
+			// entering s from b fixes its phis
+			var set []*ssa.Phi
+			for pi, p := range s.Preds {
+				if p != b {
+					continue
+				}
+				for _, in := range s.Instrs {
+					if phi, ok := in.(*ssa.Phi); ok && pi < len(phi.Edges) {
+						if _, had := resolved[phi]; !had {
+							resolved[phi] = phi.Edges[pi]
+							set = append(set, phi)
+						}
+					}
+				}
+			}
+			if !done[s] || len(set) > 0 {
 				dfs(s)
+			}
+			for _, phi := range set {
+				delete(resolved, phi)
 			}
 		}
 		onStack[b] = false
 		done[b] = true
+	}
+	for pi, p := range lt.ReachedSucc.Preds {
+		if p != from {
+			continue
+		}
+		for _, in := range lt.ReachedSucc.Instrs {
+			if phi, ok := in.(*ssa.Phi); ok && pi < len(phi.Edges) {
+				resolved[phi] = phi.Edges[pi]
+			}
+		}
 	}
 	dfs(lt.ReachedSucc)
 	return cyc
